@@ -186,10 +186,17 @@ def stage_b_conn(ctx, gen):
     beh, n = gen
     outp = os.path.join(ctx.scratch, "acct_replay.ndjson")
     res = go_test(ctx, PKG_APP, APP_FILES, "main", "^TestVerifAcctReplay$", env={"VERIF_IN": beh, "VERIF_OUT": outp},
-                  extra_overlays=APP_BRIDGE, timeout=1500)
+                  extra_overlays=APP_BRIDGE, timeout=900)
+    st = ctx.stall_sites(res)
+    if st:
+        ctx.violation("connstats:replay:deadlock:%s" % "+".join(st), "replaying a specification behaviour on the real connStats hung in %s" % ", ".join(st),
+                      {"dump": res["out"][-5000:]})
+        return 0, 1
     rows = ctx.read_results(outp)
     summ = [x for x in rows if x.get("kind") == "summary"]
     if not summ:
+        if crashed(ctx, res, "connstats:replay", "the real connStats while replaying a specification behaviour"):
+            return 0, 1
         raise vlib.InfraError("connStats replay driver did not finish:\n" + res["out"][-3000:])
     summ = summ[0]
     for m in [x for x in rows if x.get("kind") == "mismatch"]:
@@ -545,10 +552,17 @@ def gen_reg(ctx, sdir, thorough):
 def stage_b_reg(ctx, gen):
     beh, n = gen
     outp = os.path.join(ctx.scratch, "regacct_replay.ndjson")
-    res = go_test(ctx, PKG_LIB, LIB_FILES, "lib", "^TestVerifRegAcctReplay$", env={"VERIF_IN": beh, "VERIF_OUT": outp}, timeout=1500)
+    res = go_test(ctx, PKG_LIB, LIB_FILES, "lib", "^TestVerifRegAcctReplay$", env={"VERIF_IN": beh, "VERIF_OUT": outp}, timeout=900)
+    st = ctx.stall_sites(res)
+    if st:
+        ctx.violation("regstats:replay:deadlock:%s" % "+".join(st), "replaying a specification behaviour on the real Stats / RegistrationStats hung in %s"
+                      % ", ".join(st), {"dump": res["out"][-5000:]})
+        return 0
     rows = ctx.read_results(outp)
     summ = [x for x in rows if x.get("kind") == "summary"]
     if not summ:
+        if crashed(ctx, res, "regstats:replay", "the real Stats / RegistrationStats while replaying a specification behaviour"):
+            return 0
         raise vlib.InfraError("Stats / RegistrationStats replay driver did not finish:\n" + res["out"][-3000:])
     summ = summ[0]
     for m in [x for x in rows if x.get("kind") == "mismatch"]:
